@@ -553,6 +553,18 @@ func TestC01Late(t *testing.T) {
 				return nil
 			})
 		}
+		// some payload moves first (the responder's side of the accounting is what its data limit looks at)
+		moved := uint64(0)
+		for i := 1; i <= 1+r.Intn(3); i++ {
+			sz := uint64(100 + r.Intn(400))
+			if pull {
+				B.tp.Events().OnDataQueued(chid, dummyLink, sz, int64(i), true)
+			} else {
+				B.tp.Events().OnDataReceived(chid, dummyLink, sz, int64(i), true)
+			}
+			moved += sz
+		}
+		settle()
 		if ownFirst {
 			A.tp.Events().OnChannelCompleted(chid, nil)
 			settle()
@@ -577,7 +589,14 @@ func TestC01Late(t *testing.T) {
 			// limit that still binds); round 2 lets it go. Only then may either side complete.
 			r1 := datatransfer.ValidationResult{Accepted: true, ForcePause: true}
 			if timing == 5 {
-				r1 = datatransfer.ValidationResult{Accepted: true, RequiresFinalization: true, ForcePause: r.Intn(2) == 0}
+				switch r.Intn(3) {
+				case 0:
+					r1 = datatransfer.ValidationResult{Accepted: true, RequiresFinalization: true, ForcePause: r.Intn(2) == 0}
+				case 1:
+					r1 = datatransfer.ValidationResult{Accepted: true, DataLimit: moved} // a limit that is used up holds the channel as well
+				default:
+					r1 = datatransfer.ValidationResult{Accepted: true, DataLimit: 1 + uint64(r.Intn(int(moved)))}
+				}
 			}
 			B.m.UpdateValidationStatus(bg, chid, r1)
 			settle()
